@@ -120,6 +120,18 @@ add("C16", "exploration",
     "Oracle = shadow map + own parser of blockchain.new + /verif/ref/snappyref. Blocks in removed data files are 'may be absent'. Crash consistency of the store belongs to C07.",
     "DESIGN.md §3 C16")
 
+add("C01", "exploration",
+    "differential runtime monitor: script.VerifyTxScript vs an independent port of Bitcoin Core's interpreter (refscript) on template spends signed by an independent signer, single-rule mutations, stack-aware random opcode programs and flag sets closed under Core's dependencies; journaling child workers; -race replay from 8 goroutines sharing one Tx",
+    "Held on the cases observed: ~15k spends / ~63k (spend, flag set) evaluations per quick run (3.1M in thorough): verdicts agree on P2PK/P2PKH/multisig/P2SH/P2WPKH/P2WSH/nested/P2TR key and script path spends and their mutations, on opcode soup at the stack/op/element/script limits, CLTV/CSV grids, OP_SUCCESS, annex, leaf versions, tapscript sigop budget; "
+    "all 54 reference error codes and 175+ opcodes were reached; no crash, no race report.",
+    "Oracle = /verif/ref/refscript calibrated on script_tests.json (1204 incl. error names), tx_valid/tx_invalid.json and hand-derived taproot cases (no official BIP341 script vectors are available offline). Known deviations are named by re-running the reference with one modelled deviation; that is used for naming only, never for the verdict.",
+    "DESIGN.md §3 C01")
+add("C13", "exploration",
+    "runtime monitor of the real wallet binary (built from the tree) in throw-away directories: decoded output files judged by independent reference packages (reftx, refaddr, refsighash, refec, refscript) for inputs, payments, change, fee, signatures, refusal on insufficient funds and -raw field identity",
+    "Held on the runs observed: ~515 wallet runs / ~350 distinct transactions / ~1700 verified inputs per quick run over 16 wallet configurations (type 3/4 x p2kh/segwit/bech32/tap x test/mainnet), -send/-batch with all destination types, amounts from 1 satoshi to the full balance and beyond, -f, -change, -msg (75/76/255/256 bytes), -seq, -locktime, -txver, -useallinputs, -rfc6979 (signatures equal the RFC6979 reference), minsig, chained sends on the updated balance and ~110 -raw comparisons.",
+    "Oracle imports no gocoin package. Change rule judged: change returns to the script of the output spent by input 0 unless -change is given. Interactive prompts, multisig flows and litecoin mode are not driven.",
+    "DESIGN.md §3 C13")
+
 NOT_BUILT = {}
 
 def main():
